@@ -1,6 +1,7 @@
 package checks
 
 import (
+	"math/rand"
 	"time"
 
 	"pxverif/core"
@@ -49,7 +50,7 @@ const seqAssumption = "the monitored task runner reproduces the contract of task
 func init() {
 	register(&Check{
 		ID: "C01", Level: "exploration",
-		Rule: "sequential conformance histories (generated from the seed: 1-2 pipelines over all 84 admission classes, ≤34 operations: schedule / finish / fail / cancel (with slow-to-stop tasks) / delay expiry / unstartable jobs) executed against the real runner; after every operation the system is driven to logical quiescence and the executing set, every task interval and every reported job span are compared with the reference model; a situation is (admission class, #running, #waiting) resp. (#others executing at a job start, limit); distinct_nontrivial counts distinct situations in which the oracle was evaluated",
+		Rule:        "sequential conformance histories (generated from the seed: 1-2 pipelines over all 84 admission classes, ≤34 operations: schedule / finish / fail / cancel (with slow-to-stop tasks) / delay expiry / unstartable jobs) executed against the real runner; after every operation the system is driven to logical quiescence and the executing set, every task interval and every reported job span are compared with the reference model; a situation is (admission class, #running, #waiting) resp. (#others executing at a job start, limit); distinct_nontrivial counts distinct situations in which the oracle was evaluated",
 		Assumptions: []string{seqAssumption},
 		Cases:       func(t string) int { return tierN(t, 1600, 40000) },
 		RunCase:     func(c *CaseCtx) *CaseResult { return histCase(c, admissionOpts(c.Idx), 400) },
@@ -57,7 +58,7 @@ func init() {
 	})
 	register(&Check{
 		ID: "C03", Level: "exploration",
-		Rule: "same histories as C01 biased to delays and cancels of waiting jobs; restated liveness: (1) at every logical quiescence no job waits although the model says it must have started (free slot, delay expired, unchanged definition), (2) after the drain (all gates released, all delays expired) every accepted job is completed or canceled; a situation is (admission class, delayed?) at drain",
+		Rule:        "same histories as C01 biased to delays and cancels of waiting jobs; restated liveness: (1) at every logical quiescence no job waits although the model says it must have started (free slot, delay expired, unchanged definition), (2) after the drain (all gates released, all delays expired) every accepted job is completed or canceled; a situation is (admission class, delayed?) at drain",
 		Assumptions: []string{seqAssumption, "unbounded 'eventually' is restated as 'nothing enabled is left undone at logical quiescence' (DESIGN.md section 6)"},
 		Cases:       func(t string) int { return tierN(t, 1600, 40000) },
 		RunCase: func(c *CaseCtx) *CaseResult {
@@ -69,7 +70,7 @@ func init() {
 	})
 	register(&Check{
 		ID: "C05", Level: "exploration",
-		Rule: "one-step conformance of every schedule request against the admission table: the pre-state is the model state confirmed equal to the observed state at the previous quiescence; result class, replaced victim, waiting counts vs queue_limit, 'rejected leaves no trace' (deep-equal job list); a situation is (admission class, #running, #waiting, #canceled-unstarted, decision)",
+		Rule:        "one-step conformance of every schedule request against the admission table: the pre-state is the model state confirmed equal to the observed state at the previous quiescence; result class, replaced victim, waiting counts vs queue_limit, 'rejected leaves no trace' (deep-equal job list); a situation is (admission class, #running, #waiting, #canceled-unstarted, decision)",
 		Assumptions: []string{seqAssumption},
 		Cases:       func(t string) int { return tierN(t, 1600, 40000) },
 		RunCase: func(c *CaseCtx) *CaseResult {
@@ -81,7 +82,7 @@ func init() {
 	})
 	register(&Check{
 		ID: "C06", Level: "exploration",
-		Rule: "histories with long wait lists (queue unbounded or 3, concurrency 1-3), cancels of first/middle/last waiter, unstartable heads; oracle: waiting list equals the model's FIFO list after every step, and offline: no job starts before an earlier accepted job of the same pipeline that also started / still waits; a situation is the number of later-accepted jobs behind a started job",
+		Rule:        "histories with long wait lists (queue unbounded or 3, concurrency 1-3), cancels of first/middle/last waiter, unstartable heads; oracle: waiting list equals the model's FIFO list after every step, and offline: no job starts before an earlier accepted job of the same pipeline that also started / still waits; a situation is the number of later-accepted jobs behind a started job",
 		Assumptions: []string{seqAssumption},
 		Cases:       func(t string) int { return tierN(t, 1600, 40000) },
 		RunCase: func(c *CaseCtx) *CaseResult {
@@ -97,10 +98,73 @@ func init() {
 	})
 	register(&Check{
 		ID: "C15", Level: "exploration",
-		Rule: "at every quiescent step of the conformance histories: schedulable flag read immediately before every schedule request vs the outcome of that request and vs the model; running flag vs the job list of the same state; every accepted job reported by id and in the list exactly once; created<=start<=end, task start<=end; a situation is (admission class, #running, #waiting[, decision])",
+		Rule:        "at every quiescent step of the conformance histories: schedulable flag read immediately before every schedule request vs the outcome of that request and vs the model; running flag vs the job list of the same state; every accepted job reported by id and in the list exactly once; created<=start<=end, task start<=end; a situation is (admission class, #running, #waiting[, decision])",
 		Assumptions: []string{seqAssumption},
 		Cases:       func(t string) int { return tierN(t, 1600, 40000) },
-		RunCase:     func(c *CaseCtx) *CaseResult { return histCase(c, admissionOpts(c.Idx+5), 400) },
+		RunCase: func(c *CaseCtx) *CaseResult {
+			o := admissionOpts(c.Idx + 5)
+			o.HTTP = c.Idx%2 == 0
+			o.Pipe.MaxTasks = 5
+			return histCase(c, o, 400)
+		},
 		MinDistinct: 100,
+	})
+}
+
+var allDAG4 = gen.AllDAGs(4)
+
+func graphOpts(idx int, tier string) drv.HistOpts {
+	o := drv.HistOpts{
+		NPipes:       1 + idx%2,
+		MaxOps:       30 + idx%15,
+		Pipe:         gen.PipeOpts{MaxTasks: 8, CyclicProb: 0.15, AllowFailureProb: 0.25},
+		SlowStopProb: 0.15,
+		BadVarProb:   0.06,
+		FailProb:     0.18,
+		AvoidAmbig:   true,
+	}
+	o.WSchedule, o.WFinish, o.WCancel, o.WFire, o.WStopRel, o.WRead = 22, 60, 8, 6, 3, 1
+	o.Classes = []gen.ConfigClass{{Concurrency: 1 + idx%2, Limit: -1, Replace: false, Delay: idx%7 == 0}, {Concurrency: 1, Limit: 2, Replace: idx%3 == 0, Delay: false}}
+	return o
+}
+
+func init() {
+	register(&Check{
+		ID: "C02", Level: "exploration",
+		Rule:        "graph histories: random DAGs on 1-8 tasks with randomly permuted names, diamonds / nested diamonds / fan-in / fan-out / isolated / empty-script tasks, cyclic variants (self loop, 2-cycle, long cycle, cycle beside a valid DAG) and jobs with the reserved variable, queued among ordinary jobs; gates are released in PRNG order so completion orders allowed by the DAG are sampled; thorough additionally runs all 543 labelled DAGs on 4 nodes x 3 name permutations (exhaustive for that sub-space). Oracles: at most one run-enter per (job, task); every dependency has a successful run-exit (or allow_failure failure) with a smaller sequence number; set of tasks inside the runner equals the task-level simulation after every step; plain-success jobs ran every task exactly once; unstartable jobs run nothing and end canceled with an error; other jobs conform to the model. A situation is (#deps of a started task) / (plain success with n tasks) / kind of unstartable job",
+		Assumptions: []string{seqAssumption},
+		Cases:       func(t string) int { return tierN(t, 1200, 543*3+30000) },
+		RunCase: func(c *CaseCtx) *CaseResult {
+			o := graphOpts(c.Idx, c.Tier)
+			if c.Tier == "thorough" && c.Idx < 543*3 {
+				edges := allDAG4[c.Idx/3]
+				perm := c.Idx % 3
+				o.NPipes = 1
+				o.Pipe.GraphFn = func(r *rand.Rand) gen.Graph {
+					names := [][]string{{"a", "b", "c", "d"}, {"d", "c", "b", "a"}, {"b", "d", "a", "c"}}[perm]
+					return gen.GraphFromEdges(names, edges)
+				}
+			}
+			return histCase(c, o, 300)
+		},
+		Exhaustive:  func(t string) bool { return false },
+		MinDistinct: 6,
+	})
+	register(&Check{
+		ID: "C08", Level: "exploration",
+		Rule:        "failure histories: the graph generator of C02 x driver-chosen outcomes per task (ok, exit failure, exit failure with allow_failure, non-exit error, with and without allow_failure) x both fail-fast settings x PRNG gate release orders x external cancels (also with slow-to-stop tasks); the plan is the ground truth. Oracles: tasks inside the runner == task-level simulation after every step (dependents of a failed task never run; fail-fast stops the siblings; continue mode runs everything independent); terminal report (completed / canceled / lastError, per-task status, errored flags) == predicted verdict; plain success only if every task ran to success or failed with allow_failure; the /job/detail and /pipelines/jobs JSON agree with the runner. A situation is (outcome kind, allow_failure, fail-fast, #running siblings) resp. (predicted verdict class)",
+		Assumptions: []string{seqAssumption, "the combination non-exit error + allow_failure + fail-fast is a genuine race between the cancel goroutine and the scheduler loop: the oracle accepts both orders there (three-valued verdict)"},
+		Cases:       func(t string) int { return tierN(t, 1200, 30000) },
+		RunCase: func(c *CaseCtx) *CaseResult {
+			o := graphOpts(c.Idx+1, c.Tier)
+			o.FailProb = 0.4
+			o.Pipe.AllowFailureProb = 0.35
+			o.Pipe.CyclicProb = 0.03
+			o.AvoidAmbig = c.Idx%4 != 0
+			o.HTTP = c.Idx%2 == 0
+			o.WSchedule, o.WFinish, o.WCancel, o.WFire, o.WStopRel, o.WRead = 20, 60, 10, 5, 4, 1
+			return histCase(c, o, 300)
+		},
+		MinDistinct: 20,
 	})
 }
